@@ -598,4 +598,335 @@ Proof.
   - apply adj_spec_of_post. apply (APost_GPost j0 Hj0 Hz Hnz). exact HP.
 Qed.
 
+(* ================================================================== *)
+(* intersect_with_adjacents                                            *)
+(* ================================================================== *)
+Definition lastinv (last : option N) (po : list (N * N)) : Prop :=
+  match last with
+  | None => po = []
+  | Some x => collected l mask po (N.land x mask) /\ forall a b, In (a, b) po -> xl a <= N.land x mask
+  end.
+
+Lemma fresh_notcoll last po k :
+  lastinv last po -> (forall a b, In (a, b) po -> a <= k /\ a < nl) -> k < nl ->
+  fresh mask last (xl k) = true -> ~ collected l mask po (xl k).
+Proof.
+  intros HL Hb Hk NB (a & b & Hin & E). destruct last as [x'|]; cbn [lastinv] in HL.
+  - cbn [fresh] in NB. apply negb_true_iff, N.eqb_neq in NB. destruct HL as [Hc Hmax]. apply NB.
+    destruct Hc as (al & bl & Hinl & El).
+    pose proof (Hmax a b Hin) as Hle. rewrite E in Hle.
+    destruct (Hb al bl Hinl) as (Hal & Halnl).
+    assert (xl al <= xl k) by (apply sL; lia). lia.
+  - rewrite HL in Hin. contradiction.
+Qed.
+
+Lemma fresh_coll last po v : lastinv last po -> fresh mask last v = false -> collected l mask po v.
+Proof.
+  intros HL NB. destruct last as [x'|]; cbn [fresh] in NB; [|discriminate].
+  apply negb_false_iff, N.eqb_eq in NB. destruct HL as [Hc _]. rewrite NB in Hc. exact Hc.
+Qed.
+
+Lemma lastinv_cons po k b :
+  (forall a b', In (a, b') po -> a <= k) -> k < nl -> lastinv (Some (el k)) ((k, b) :: po).
+Proof.
+  intros Hb Hk. cbn [lastinv]. change (N.land (el k) mask) with (xl k). split.
+  - exists k, b. split; [now left|reflexivity].
+  - intros a b' [Hin|Hin].
+    + inversion Hin; subst. lia.
+    + apply sL; [apply (Hb a b' Hin)|exact Hk].
+Qed.
+
+Lemma ia_loop_S cap f i j last la lo ro alo aro no nao :
+  ia_loop L R mask delta cap (S f) i j last la lo ro alo aro no nao =
+  if andb (i <? nl) (j <? nr) then
+    do x0 <- rd 0 L i; do y0 <- rd 1 R j;
+    do ij <- (if negb (N.land x0 mask =? N.land y0 mask) then
+                do ig <- ggl t_ia_l GFUEL i j 1;
+                let i2 := fst ig - snd ig / 2 in
+                do jg <- ggr t_ia_r GFUEL i2 j 1;
+                Done (i2, fst jg - snd jg / 2)
+              else Done (i, j));
+    let '(i2, j2) := ij in
+    do x <- rd 0 L i2; do y <- rd 1 R j2;
+    let mx := N.land x mask in let my := N.land y mask in
+    if ladd mask delta x =? my then
+      if fresh mask la mx then
+        do _ <- wr_ok 4 cap nao; do _ <- wr_ok 5 cap nao;
+        ia_loop L R mask delta cap f (i2 + 1) j2 last (Some x) lo ro (i2 :: alo) (j2 :: aro) no (nao + 1)
+      else ia_loop L R mask delta cap f (i2 + 1) j2 last la lo ro alo aro no nao
+    else if mx <? my then ia_loop L R mask delta cap f (i2 + 1) j2 last la lo ro alo aro no nao
+    else if my <? mx then ia_loop L R mask delta cap f i2 (j2 + 1) last la lo ro alo aro no nao
+    else
+      if fresh mask last mx then
+        do _ <- wr_ok 2 cap no; do _ <- wr_ok 3 cap no;
+        ia_loop L R mask delta cap f i2 (j2 + 1) (Some x) la (i2 :: lo) (j2 :: ro) alo aro (no + 1) nao
+      else ia_loop L R mask delta cap f i2 (j2 + 1) last la lo ro alo aro no nao
+  else Done {| ia_lo := rev lo; ia_ro := rev ro; ia_alo := rev alo; ia_aro := rev aro |}.
+Proof.
+  cbn [ia_loop]. change (mlen L) with nl. change (mlen R) with nr.
+  destruct (andb (i <? nl) (j <? nr)); [|reflexivity].
+  destruct (rd 0 L i); cbn [bind]; reflexivity.
+Qed.
+
+Section Fused.
+Hypothesis Hov : forall a, a < nl -> xl a + delta < W64.
+
+Lemma ladd_ok a : a < nl -> ladd mask delta (el a) = xl a + delta.
+Proof.
+  intro H. unfold ladd, wadd. change (N.land (el a) mask) with (xl a). apply N.mod_small. apply Hov. exact H.
+Qed.
+
+Lemma ia_select i j i2 j2 : i < nl -> j < nr ->
+  (if negb (xl i =? xr j) then
+     do ig <- ggl t_ia_l GFUEL i j 1;
+     let i2 := fst ig - snd ig / 2 in
+     do jg <- ggr t_ia_r GFUEL i2 j 1;
+     Done (i2, fst jg - snd jg / 2)
+   else Done (i, j)) = Done (i2, j2) ->
+  i <= i2 /\ i2 < nl /\ j <= j2 /\ j2 < nr /\
+  (i2 <> i -> xl i2 + delta < xr j) /\ (j2 <> j -> xr j2 < xl i2 + delta).
+Proof.
+  intros Hi Hj H. destruct (negb (xl i =? xr j)).
+  - destruct (ggl t_ia_l GFUEL i j 1) as [[i1 g1]| |] eqn:EL; cbn [bind fst snd] in H; try discriminate.
+    destruct (ggl_start _ i j i1 g1 Hi Hj EL) as (A1 & A2 & A3).
+    set (i3 := i1 - g1/2) in *.
+    destruct (ggr t_ia_r GFUEL i3 j 1) as [[j1 g2]| |] eqn:ER; cbn [bind fst snd] in H; try discriminate.
+    destruct (ggr_start _ i3 j j1 g2 A2 Hj ER) as (B1 & B2 & B3).
+    set (j3 := j1 - g2/2) in *.
+    inversion H. subst i2 j2.
+    split; [exact A1|]. split; [exact A2|]. split; [exact B1|]. split; [exact B2|]. split.
+    + intro n. destruct A3 as [E|E]; [contradiction|]. unfold t_ia_l in E. rewrite (ladd_ok i3 A2) in E.
+      apply N.ltb_lt in E. exact E.
+    + intro n. destruct B3 as [E|E]; [contradiction|]. unfold t_ia_r in E. rewrite (ladd_ok i3 A2) in E.
+      apply N.ltb_lt in E. exact E.
+  - inversion H. subst i2 j2. repeat split; try assumption; try lia; intro n; contradiction.
+Qed.
+
+Definition adjp_ok := gpair_ok (fun v => v + delta).
+
+Record FInv (i j : N) (last la : option N) (po pa : list (N * N)) : Prop := {
+  F0 : i <= nl /\ j <= nr;
+  F1 : forall a b, In (a, b) po -> a <= i /\ b < j /\ ipair_ok a b;
+  F1a : forall a b, In (a, b) pa -> a < i /\ b <= j /\ adjp_ok a b;
+  FA : forall a b, a < i -> a < nl -> j <= b -> b < nr ->
+         xl a + delta <= xr b /\ (xl a + delta = xr b -> collected l mask pa (xl a));
+  FB : forall a b, b < j -> b < nr -> i <= a -> a < nl ->
+         xr b <= xl a /\ (xr b = xl a -> collected l mask po (xr b));
+  FC : forall a b, a < i -> a < nl -> b < j -> b < nr ->
+         (xl a = xr b -> collected l mask po (xl a)) /\ (xl a + delta = xr b -> collected l mask pa (xl a));
+  F5 : lastinv last po;
+  F5a : lastinv la pa;
+  F6 : StronglySorted desc po;
+  F6a : StronglySorted desc pa
+}.
+
+Lemma ia_loop_pc : forall fuel i j last la po pa no nao o,
+  FInv i j last la po pa ->
+  ia_loop L R mask delta (N.min nl nr) fuel i j last la
+          (map fst po) (map snd po) (map fst pa) (map snd pa) no nao = Done o ->
+  exists po' pa',
+    o = {| ia_lo := rev (map fst po'); ia_ro := rev (map snd po');
+           ia_alo := rev (map fst pa'); ia_aro := rev (map snd pa') |} /\
+    WPost po' /\ GPost (fun v => v + delta) pa'.
+Proof.
+  induction fuel as [|f IH]; intros i j last la po pa no nao o HI H; [discriminate|].
+  rewrite ia_loop_S in H.
+  destruct HI as [H0 H1 H1a HA HB HC H5 H5a H6 H6a].
+  destruct (andb (i <? nl) (j <? nr)) eqn:G.
+  2:{ (* loop exit *)
+    exists po, pa. split; [inversion H; reflexivity|]. split.
+    - split; [|split; [|exact H6]].
+      + intros a b Hin. apply (H1 a b Hin).
+      + intros a b Ha Hb E.
+        apply andb_false_iff in G as [G|G]; apply N.ltb_ge in G.
+        * destruct (N.lt_ge_cases b j) as [Hbj|Hbj].
+          -- apply (HC a b); try assumption; try lia.
+          -- exfalso. destruct (HA a b); try assumption; try lia.
+        * destruct (N.lt_ge_cases a i) as [Hai|Hai].
+          -- apply (HC a b); try assumption; try lia.
+          -- rewrite E. apply (HB a b); try assumption; try lia.
+    - split; [|split; [|exact H6a]].
+      + intros a b Hin. apply (H1a a b Hin).
+      + intros a b Ha Hb E.
+        apply andb_false_iff in G as [G|G]; apply N.ltb_ge in G.
+        * destruct (N.lt_ge_cases b j) as [Hbj|Hbj].
+          -- apply (HC a b); try assumption; try lia.
+          -- apply (HA a b); try assumption; try lia.
+        * destruct (N.lt_ge_cases a i) as [Hai|Hai].
+          -- apply (HC a b); try assumption; try lia.
+          -- exfalso. destruct (HB a b); try assumption; try lia. }
+  apply andb_true_iff in G as [Hi Hj]. apply N.ltb_lt in Hi, Hj.
+  rewrite (rdL' i Hi), (rdR' j Hj) in H. cbn [bind] in H.
+  change (N.land (el i) mask) with (xl i) in H. change (N.land (er j) mask) with (xr j) in H.
+  match type of H with bind ?sel _ = _ => destruct sel as [[i2 j2]| |] eqn:ES end;
+    cbn [bind] in H; try discriminate.
+  destruct (ia_select i j i2 j2 Hi Hj ES) as (Hi2a & Hi2b & Hj2a & Hj2b & SkL' & SkR'). clear ES.
+  rewrite (rdL' i2 Hi2b), (rdR' j2 Hj2b) in H. cbn [bind] in H.
+  rewrite (ladd_ok i2 Hi2b) in H.
+  change (N.land (el i2) mask) with (xl i2) in H. change (N.land (er j2) mask) with (xr j2) in H.
+  (* at most one pointer moved *)
+  assert (OneL : xl i2 < xr j2 -> j2 = j).
+  { intro C. destruct (N.eq_dec j2 j) as [|n]; [assumption|]. pose proof (gapR _ _ (SkR' n)). lia. }
+  assert (OneR : xr j2 <= xl i2 -> i2 = i).
+  { intro C. destruct (N.eq_dec i2 i) as [|n]; [assumption|]. pose proof (SkL' n).
+    assert (xr j <= xr j2) by (apply sR; lia). lia. }
+  (* advancing the left pointer past i2 *)
+  assert (StepL : xl i2 < xr j2 -> forall pa' la',
+            (forall v, collected l mask pa v -> collected l mask pa' v) ->
+            (xl i2 + delta = xr j2 -> collected l mask pa' (xl i2)) ->
+            (forall a b, In (a, b) pa' -> a < i2 + 1 /\ b <= j2 /\ adjp_ok a b) ->
+            lastinv la' pa' -> StronglySorted desc pa' ->
+            FInv (i2 + 1) j2 last la' po pa').
+  { intros C pa' la' Hmono Hnew H1a' H5a' H6a'. pose proof (OneL C) as Ej. subst j2.
+    pose proof (gapL _ _ C) as Cg.
+    constructor.
+    - clear - Hi2b H0. lia.
+    - intros a b Hin. specialize (H1 a b Hin). clear - H1 Hi2a. intuition lia.
+    - exact H1a'.
+    - intros a b Ha Hanl Hb Hbnr.
+      assert (xl a <= xl i2) by (apply sL; lia). assert (xr j <= xr b) by (apply sR; lia).
+      split; [lia|]. intro E. assert (E1 : xl a = xl i2) by lia. rewrite E1. apply Hnew. lia.
+    - intros a b Hb Hbnr Ha Hanl. apply (HB a b); try assumption; try lia.
+    - intros a b Ha Hanl Hb Hbnr.
+      destruct (N.lt_ge_cases a i) as [Hai|Hai].
+      + destruct (HC a b Hai Hanl Hb Hbnr) as [X1 X2]. split; [exact X1|]. intro E. apply Hmono, X2, E.
+      + destruct (HB a b Hb Hbnr Hai Hanl) as [Y1 Y2]. split.
+        * intro E. rewrite E. apply Y2. lia.
+        * intro E. lia.
+    - exact H5.
+    - exact H5a'.
+    - exact H6.
+    - exact H6a'. }
+  (* advancing the right pointer past j2 *)
+  assert (StepR : xr j2 <= xl i2 -> forall po' last',
+            (forall v, collected l mask po v -> collected l mask po' v) ->
+            (xr j2 = xl i2 -> collected l mask po' (xl i2)) ->
+            (forall a b, In (a, b) po' -> a <= i2 /\ b < j2 + 1 /\ ipair_ok a b) ->
+            lastinv last' po' -> StronglySorted desc po' ->
+            FInv i2 (j2 + 1) last' la po' pa).
+  { intros C po' last' Hmono Hnew H1' H5' H6'. pose proof (OneR C) as Ei. subst i2.
+    constructor.
+    - clear - Hj2b H0. lia.
+    - exact H1'.
+    - intros a b Hin. specialize (H1a a b Hin). clear - H1a Hj2a. intuition lia.
+    - intros a b Ha Hanl Hb Hbnr. apply (HA a b); try assumption; try lia.
+    - intros a b Hb Hbnr Ha Hanl.
+      destruct (N.lt_ge_cases b j) as [Hbj|Hbj].
+      + destruct (HB a b Hbj Hbnr Ha Hanl) as [Y1 Y2]. split; [exact Y1|]. intro E. apply Hmono, Y2, E.
+      + assert (xr b <= xr j2) by (apply sR; lia). assert (xl i <= xl a) by (apply sL; lia).
+        split; [lia|]. intro E. assert (E1 : xr b = xl i) by lia. rewrite E1. apply Hnew. lia.
+    - intros a b Ha Hanl Hb Hbnr.
+      destruct (N.lt_ge_cases b j) as [Hbj|Hbj].
+      + destruct (HC a b Ha Hanl Hbj Hbnr) as [X1 X2]. split; [|exact X2]. intro E. apply Hmono, X1, E.
+      + destruct (HA a b Ha Hanl Hbj Hbnr) as [Z1 Z2]. split; [intro E; lia|exact Z2].
+    - exact H5'.
+    - exact H5a.
+    - exact H6'.
+    - exact H6a. }
+  destruct (xl i2 + delta =? xr j2) eqn:CA.
+  { (* adjacency at (i2, j2) = (i, j) *)
+    apply N.eqb_eq in CA.
+    assert (C : xl i2 < xr j2) by lia.
+    pose proof (OneL C) as Ej. subst j2.
+    assert (Ei : i2 = i).
+    { destruct (N.eq_dec i2 i) as [|n]; [assumption|]. pose proof (SkL' n). lia. }
+    subst i2.
+    destruct (fresh mask la (xl i)) eqn:NB.
+    - assert (NotColl : ~ collected l mask pa (xl i)).
+      { apply (fresh_notcoll la pa i); try assumption.
+        intros a b Hin. destruct (H1a a b Hin) as (X & _ & Y & _). split; [lia|exact Y]. }
+      unfold wr_ok in H. destruct (nao <? N.min nl nr); cbn [bind] in H; [|discriminate].
+      change (i :: map fst pa) with (map fst ((i, j) :: pa)) in H.
+      change (j :: map snd pa) with (map snd ((i, j) :: pa)) in H.
+      refine (IH _ _ _ _ _ _ _ _ _ _ H). apply (StepL C).
+      + intros v. apply collected_cons.
+      + intros _. exists i, j. split; [now left|reflexivity].
+      + intros a b [Hin|Hin].
+        * inversion Hin; subst a b. split; [lia|]. split; [lia|].
+          split; [assumption|]. split; [assumption|]. split; [exact CA|]. split.
+          -- intros a' Ha' E. apply NotColl. rewrite <- E. apply (HA a' j); try lia.
+          -- intros b' Hb' E. destruct (HB i b'); try lia.
+        * specialize (H1a a b Hin). clear - H1a. intuition lia.
+      + apply lastinv_cons; [|exact Hi]. intros a b' Hin. destruct (H1a a b' Hin) as (X & _). lia.
+      + constructor; [exact H6a|]. apply Forall_forall. intros [a b] Hin. unfold desc. cbn [fst].
+        destruct (H1a a b Hin) as (Ha & _). exact Ha.
+    - assert (Coll : collected l mask pa (xl i)) by (apply (fresh_coll la); assumption).
+      refine (IH _ _ _ _ _ _ _ _ _ _ H). apply (StepL C).
+      + auto.
+      + intros _. exact Coll.
+      + intros a b Hin. specialize (H1a a b Hin). clear - H1a. intuition lia.
+      + exact H5a.
+      + exact H6a. }
+  apply N.eqb_neq in CA.
+  destruct (xl i2 <? xr j2) eqn:C1.
+  { (* left value smaller, not adjacent *)
+    apply N.ltb_lt in C1. refine (IH _ _ _ _ _ _ _ _ _ _ H). apply (StepL C1).
+    - auto.
+    - intro E. contradiction.
+    - intros a b Hin. specialize (H1a a b Hin). pose proof (OneL C1). clear - H1a Hi2a H2. intuition lia.
+    - exact H5a.
+    - exact H6a. }
+  apply N.ltb_ge in C1.
+  destruct (xr j2 <? xl i2) eqn:C2.
+  { (* right value smaller *)
+    apply N.ltb_lt in C2. refine (IH _ _ _ _ _ _ _ _ _ _ H). apply StepR; [lia|auto|intro; lia| |exact H5|exact H6].
+    intros a b Hin. specialize (H1 a b Hin). clear - H1 Hi2a Hj2a. intuition lia. }
+  apply N.ltb_ge in C2.
+  (* common value at (i2, j2) = (i, j2) *)
+  assert (Ev : xl i2 = xr j2) by lia.
+  pose proof (OneR C1) as Ei. subst i2.
+  assert (First : forall a', a' < i -> xl a' <> xl i).
+  { intros a' Ha' E. destruct (HA a' j2); try lia. }
+  destruct (fresh mask last (xl i)) eqn:NB.
+  - assert (NotColl : ~ collected l mask po (xl i)).
+    { apply (fresh_notcoll last po i); try assumption.
+      intros a b Hin. destruct (H1 a b Hin) as (X & _ & Y & _). split; [lia|exact Y]. }
+    unfold wr_ok in H. destruct (no <? N.min nl nr); cbn [bind] in H; [|discriminate].
+    change (i :: map fst po) with (map fst ((i, j2) :: po)) in H.
+    change (j2 :: map snd po) with (map snd ((i, j2) :: po)) in H.
+    refine (IH _ _ _ _ _ _ _ _ _ _ H). apply (StepR C1).
+    + intros v. apply collected_cons.
+    + intros _. exists i, j2. split; [now left|reflexivity].
+    + intros a b [Hin|Hin].
+      * inversion Hin; subst a b. split; [lia|]. split; [lia|].
+        split; [assumption|]. split; [assumption|]. split; [exact Ev|exact First].
+      * specialize (H1 a b Hin). clear - H1 Hj2a. intuition lia.
+    + apply lastinv_cons; [|exact Hi]. intros a b' Hin. destruct (H1 a b' Hin) as (X & _). lia.
+    + constructor; [exact H6|]. apply Forall_forall. intros [a b] Hin. unfold desc. cbn [fst].
+      destruct (H1 a b Hin) as (Ha & _ & _ & _ & Ea & _).
+      destruct (N.eq_dec a i) as [->|Hne]; [|lia].
+      exfalso. apply NotColl. exists i, b. split; [exact Hin|reflexivity].
+  - assert (Coll : collected l mask po (xl i)) by (apply (fresh_coll last); assumption).
+    refine (IH _ _ _ _ _ _ _ _ _ _ H). apply (StepR C1).
+    + auto.
+    + intros _. exact Coll.
+    + intros a b Hin. specialize (H1 a b Hin). clear - H1 Hj2a. intuition lia.
+    + exact H5.
+    + exact H6.
+Qed.
+
+Theorem ia_pc o : intersect_with_adjacents l r mask = Done o -> delta = lowbit mask ->
+  ia_lo o = fst (intersect_drop_spec l r mask) /\
+  length (ia_ro o) = length (ia_lo o) /\
+  (forall k a b, nth_error (ia_lo o) k = Some a -> nth_error (ia_ro o) k = Some b ->
+     b < nr /\ xr b = xl a) /\
+  (ia_alo o, ia_aro o) = adjacent_spec l r mask delta.
+Proof.
+  intros H Ed. unfold intersect_with_adjacents in H. cbv zeta in H. rewrite <- Ed in H. fold L R nl nr in H.
+  destruct (ia_loop_pc (outer_fuel l r) 0 0 None None [] [] 0 0 o) as (po & pa & -> & HW & HG).
+  - constructor; [lia | intros a b [] | intros a b [] | intros; lia | intros; lia | intros; lia
+                 | reflexivity | reflexivity | constructor | constructor].
+  - exact H.
+  - cbn [ia_lo ia_ro ia_alo ia_aro]. split; [apply weak_spec_fst; exact HW|]. split.
+    + rewrite !rev_length, !map_length. reflexivity.
+    + split; [|apply adj_spec_of_post; exact HG].
+      intros k a b Ka Kb. rewrite <- map_rev in Ka, Kb.
+      rewrite nth_error_map in Ka, Kb.
+      destruct (nth_error (rev po) k) as [[a1 b1]|] eqn:Ek; cbn [option_map fst snd] in Ka, Kb; [|discriminate].
+      inversion Ka; inversion Kb; subst a1 b1.
+      apply nth_error_In, in_rev in Ek. destruct HW as (P1 & _).
+      destruct (P1 a b Ek) as (_ & Hb & E & _). split; [exact Hb|now symmetry].
+Qed.
+End Fused.
+
 End A.
